@@ -27,7 +27,7 @@ def run(tier, replay=None):
                               "nibble_tables": res["nib"], "gfni_matrices": res["gfni"], "constant_multiply_kernel_runs": res.get("vmul", 0), "field_axioms_ok": res["field_ok"]})
         if not res["field_ok"]:
             raise Infra("GF256.tla field axioms failed: the specification itself is wrong")
-        if res["mul_rows"] != 256 or res["inv"] != 1 or res["nib"] + res["gfni"] != 1024:
+        if res["mul_rows"] != 256 or res["inv"] != 1 or res["nib"] + res["gfni"] != 1536:
             raise Infra("C12 dump incomplete: %r" % res)
         for b in res["bad"]:
             v.violation("%s:%s" % (b[0], name), "%s disagrees with GF(2^8)/0x11D at operand %s,%s (build %s)" % (b[0], b[1], b[2], name),
